@@ -12,8 +12,13 @@ AST (python tuples, mirrors coq/Fix/Printer.v):
           | ("SEQUENCE",[member])|("SET",[member])|("CHOICE",[member])
           | ("SEQUENCE OF",constr|None,texpr)|("SET OF",constr|None,texpr)|("REF",Name)
   member  = ("c",id,texpr,marker)|("ext",)      marker = None|("OPT",)|("DEF",("int",z)|("bool",b))
-  constr  = ("val",z)|("range",lo,hi)|("ext",)|("size",constr)|("uni",[c])|("int",[c])|("csv",[c])|("set",[c])
-            lo = "MIN"|int, hi = "MAX"|int
+  constr  = ("val",z|value)|("range",lo,hi)|("ext",)|("size",constr)|("uni",[c])|("int",[c])|("csv",[c])|("set",[c])
+          | ("ctype", Module|None, Name)          contained subtype by reference: (INCLUDES T) / (T) / (M.T)
+            lo = "MIN"|int|value, hi = "MAX"|int|value
+  value   = int | ("int",z)|("null",)|("bool",b)|("bits","0101..")|("str",text)|("real",neg,ip,fp6)|("ref",id)|("ref2",Module,id)
+  nval    = int | ("ref",id) | ("ref2",Module,id)        named numbers, ENUMERATED values, exception spec
+  a module's "assigns" holds type assignments (Name, texpr) and value assignments (name, texpr, value);
+  a member ("ext", nval) is `...!nval`; ty ("REAL",) ; marker ("DEF", value)
 """
 
 WORDS = ["alpha", "beta", "gamma", "delta", "kappa", "lambda", "omega", "sigma", "theta", "zeta", "node", "leaf", "item",
@@ -68,7 +73,13 @@ class Gen:
             return ("set", [self.ess(depth - 1, nonneg)])
         a = self.r.range(0, 40) if nonneg else self.z()
         if k <= 3:
+            if not nonneg:
+                a = self.vref("int", False, (1, 5)) or a      # value reference as a single value
             return ("val", a)
+        # a value reference as upper end point: the referenced values lie above the literal lower end points
+        vr = self.vref("nat", True, (1, 4)) if nonneg else self.vref("big", True, (1, 5))
+        if vr:
+            return ("range", self.r.range(0, 20) if nonneg else self.r.range(-50, 900), vr)
         b = a + self.r.range(0, 50)
         lo, hi = a, b
         if not nonneg and self.r.chance(1, 6):
@@ -123,6 +134,110 @@ class Gen:
             return (self.r.choice(["uni", "int"]), es)
         return ("set", [self.spec(0, True, mk)])
 
+    # ---- values (self.vals: value assignments visible so far: kind -> [name]; self.modname)
+    vals = None
+    modname = None
+    inttypes = None
+
+    def vref(self, kind, qual=True, p=(1, 3)):
+        """a reference to an earlier value assignment of that kind, or None.  qual: `Module.value` may be
+        used (asn1c's grammar refuses it as a single value and as a lower end point: `(M.v)`, `(M.v..9)`
+        are syntax errors, `(1..M.v)` and `DEFAULT M.v` are accepted)"""
+        if not self.vals or not self.vals.get(kind) or not self.r.chance(*p):
+            return None
+        n = self.r.choice(self.vals[kind])
+        if qual and self.modname and self.r.chance(1, 4):
+            return ("ref2", self.modname, n)
+        return ("ref", n)
+
+    def bits(self, octets=None):
+        """directed lengths first: 1..7 (bstring), 8/16/24 (hstring), 9, 12 (an hstring source with three
+        digits is a bstring in print), all 16 hexadecimal digits"""
+        if octets is None:
+            octets = self.r.chance(1, 2)
+        if octets:
+            k = self.r.below(6)
+            if k == 0:
+                nib = list("0123456789ABCDEF")
+                nib = self.r.shuffle(nib)[:2 * self.r.range(1, 8)]
+            elif k == 1:
+                nib = [self.r.choice("ABCDEF") for _ in range(2 * self.r.range(1, 4))]
+            else:
+                nib = [self.r.choice("0123456789ABCDEF") for _ in range(2 * self.r.range(1, 6))]
+            return ("bits", "".join(format(int(c, 16), "04b") for c in nib))
+        n = self.r.choice([1, 2, 3, 4, 5, 6, 7, 9, 12, 15, 17, 20, 31, self.r.range(1, 40)])
+        return ("bits", "".join(self.r.choice("01") for _ in range(n)))
+
+    def cstr(self):
+        k = self.r.below(6)
+        if k == 0:
+            return ("str", "")
+        pool = ["a", "b", "Z", "0", " ", "\"", "\"", "-", "x y", "it", "()", "--", "'", ",", "{", "}", "|", "::="]
+        t = "".join(self.r.choice(pool) for _ in range(self.r.range(1, 6)))
+        if t.startswith("'"):
+            # asn1p_l.l: the "prohibited symbol" rule (a mis-bracketed character class) matches any character
+            # followed by '" — three characters, longer than the cstring rule's match — so the lexeme "'" (and
+            # "'""...") is refused; such a value cannot come out of the parser either, hence never out of the printer
+            t = "q" + t
+        return ("str", t)
+
+    def real(self):
+        k = self.r.below(6)
+        if k == 0:
+            ip, fp = "0", "0"
+        elif k == 1:
+            ip, fp = str(self.r.range(0, 9)), str(self.r.range(0, 999999)).rjust(6, "0")
+        elif k == 2:
+            ip, fp = str(self.r.range(0, 999999999)), str(self.r.range(0, 999999)).rjust(6, "0")
+        else:
+            ip, fp = str(self.r.range(0, 500)), self.r.choice(["5", "25", "125", "0", "75", "001", "000001", "999999"])
+        return ("real", self.r.chance(1, 3), ip, fp.ljust(6, "0"))
+
+    def intval(self):
+        return self.vref("int") or self.z(-1000, 1000)
+
+    def value_for(self, tyk, ty=None, qual=True):
+        """a value of the kind the type takes (so that the semantic pass accepts most modules)"""
+        if tyk == "INTEGER":
+            if ty and ty[1] and self.r.chance(1, 2):
+                return ("ref", self.r.choice(ty[1])[0])          # a named number
+            return self.vref("int", qual) or self.r.choice([self.z(-1000, 1000), self.z(), 9223372036854775807, -9223372036854775807])
+        if tyk == "BOOLEAN":             # (DEFAULT by reference is accepted for INTEGER and character strings only)
+            return ("bool", self.r.chance(1, 2))
+        if tyk == "NULL":
+            return ("null",)
+        if tyk == "OCTET STRING":        # (a reference to an OCTET/BIT STRING value is refused by the semantic pass)
+            return self.bits(True)
+        if tyk == "BIT STRING":
+            return self.bits()
+        if tyk in ("IA5String", "UTF8String"):
+            return self.vref("str", qual) or self.cstr()
+        if tyk == "REAL":
+            return self.real()
+        if tyk == "ENUMERATED":
+            ids = [it[1] for it in ty[1] if it[0] == "i"]
+            return ("ref", self.r.choice(ids))
+        return None
+
+    def value_constr(self, tyk):
+        """single-value / value-range constraints over values of the type's kind"""
+        n = 1 if self.r.chance(1, 2) else self.r.range(2, 3)
+        es = []
+        for _ in range(n):
+            if tyk == "REAL" and self.r.chance(1, 2):
+                a, b = self.real(), self.real()
+                fa = (-1 if a[1] else 1) * float(a[2] + "." + a[3])
+                fb = (-1 if b[1] else 1) * float(b[2] + "." + b[3])
+                if fa > fb:
+                    a, b = b, a
+                es.append(("range", "MIN" if self.r.chance(1, 6) else a, "MAX" if self.r.chance(1, 6) else b))
+            else:
+                es.append(("val", self.value_for(tyk, None, False)))
+        c = es[0] if n == 1 else ("uni", es)
+        if self.r.chance(1, 8):
+            c = ("csv", [c, ("ext",)])
+        return ("set", [c])
+
     # ---- types
     def named_numbers(self, nonneg):
         used, vals, out = set(), set(), []
@@ -132,6 +247,10 @@ class Gen:
                 continue
             vals.add(v)
             out.append((self.ident(used), v))
+        if not nonneg and self.vals and self.vals.get("big") and self.r.chance(1, 3):
+            # a named number given by a value reference (`DefinedValue`); the referenced values are
+            # kept apart from the literal ones (>= 1000) so that named numbers stay distinct
+            out.append((self.ident(used), ("ref", self.r.choice(self.vals["big"]))))
         return out
 
     def enum_items(self):
@@ -148,25 +267,35 @@ class Gen:
         return out
 
     def leaf(self):
-        k = self.r.below(12)
+        k = self.r.below(13)
         if k == 0:
             return (None, ("BOOLEAN",), None)
         if k == 1:
             return (None, ("NULL",), None)
         if k <= 4:
             nn = self.named_numbers(False) if self.r.chance(1, 4) else []
-            return (None, ("INTEGER", nn), self.int_constr() if self.r.chance(2, 3) else None)
+            c = self.int_constr() if self.r.chance(2, 3) else None
+            if self.inttypes and self.r.chance(1, 5):
+                # contained subtype by reference, alone or in a union with values
+                ct = ("ctype", self.modname if self.modname and self.r.chance(1, 4) else None, self.r.choice(self.inttypes))
+                c = ("set", [ct if self.r.chance(1, 2) else ("uni", [ct, ("range", 1000, 1000 + self.r.range(0, 50))])])
+            return (None, ("INTEGER", nn), c)
         if k == 5:
-            return (None, ("OCTET STRING",), self.size_constr() if self.r.chance(1, 2) else None)
+            c = self.size_constr() if self.r.chance(1, 2) else (self.value_constr("OCTET STRING") if self.r.chance(1, 2) else None)
+            return (None, ("OCTET STRING",), c)
         if k == 6:
             nn = self.named_numbers(True) if self.r.chance(1, 2) else []
-            return (None, ("BIT STRING", nn), self.size_constr() if self.r.chance(1, 3) else None)
+            c = self.size_constr() if self.r.chance(1, 3) else (self.value_constr("BIT STRING") if self.r.chance(1, 4) and not nn else None)
+            return (None, ("BIT STRING", nn), c)
         if k == 7:
             return (None, ("ENUMERATED", self.enum_items()), None)
         if k == 8:
-            return (None, ("IA5String",), self.size_constr() if self.r.chance(1, 2) else None)
+            c = self.size_constr() if self.r.chance(1, 2) else (self.value_constr("IA5String") if self.r.chance(1, 2) else None)
+            return (None, ("IA5String",), c)
         if k == 9:
             return (None, ("UTF8String",), self.size_constr() if self.r.chance(1, 3) else None)
+        if k == 10:
+            return (None, ("REAL",), self.value_constr("REAL") if self.r.chance(1, 2) else None)
         return None
 
     def texpr(self, depth, refs, automatic):
@@ -234,46 +363,205 @@ class Gen:
                 k = self.r.below(6)
                 if k == 0:
                     mk = ("OPT",)
-                elif k == 1 and t[1][0] == "INTEGER" and not t[1][1]:
-                    mk = ("DEF", ("int", self.z(-1000, 1000)))
-                elif k == 1 and t[1][0] == "BOOLEAN":
-                    mk = ("DEF", ("bool", self.r.chance(1, 2)))
+                elif k <= 2:
+                    dv = self.value_for(t[1][0], t[1])
+                    if dv is not None:
+                        mk = ("DEF", dv)
             ms.append(("c", self.ident(used), t, mk))
         if self.r.chance(1, 3):
             k = self.r.range(1 if kind == "CHOICE" and ms else 0, len(ms))
-            ms.insert(k, ("ext",))
+            x = ("ext",)
+            if self.r.chance(1, 4):        # exception spec: `...!5`, `...!-1`, `...!v`
+                x = ("ext", self.vref("int") or self.r.range(-5, 60))
+            ms.insert(k, x)
             if self.r.chance(1, 4) and k < len(ms) - 1:
                 ms.insert(self.r.range(k + 2, len(ms)), ("ext",))
         return ms
 
-    def module(self, name, nass=None, ext_refs=()):
+    def value_assign(self, used):
+        """a value assignment of one of the modelled kinds; registers the name for later references"""
+        k = self.r.below(9)
+        nm = "v" + self.ident(used)
+        while nm in used:
+            nm += "x"
+        used.add(nm)
+        kind, tyk = [("int", "INTEGER"), ("int", "INTEGER"), ("big", "INTEGER"), ("bool", "BOOLEAN"), ("oct", "OCTET STRING"),
+                     ("bit", "BIT STRING"), ("str", "IA5String"), ("real", "REAL"), ("nat", "INTEGER")][k]
+        if kind == "big":
+            v = self.r.range(1000, 30000)
+        elif kind == "nat":
+            v = self.r.range(21, 60)
+        elif kind == "int" and self.vals.get("int") and self.r.chance(1, 4):
+            v = ("ref", self.r.choice(self.vals["int"]))          # value reference chain
+        else:
+            v = self.value_for(tyk)
+        ty = (tyk,) if tyk not in ("INTEGER", "BIT STRING") else (tyk, [])
+        t = (None, ty, None)
+        if tyk == "INTEGER" and self.inttypes and self.r.chance(1, 5):
+            t = (None, ("REF", self.r.choice(self.inttypes)), None)
+        self.vals.setdefault(kind, []).append(nm)
+        return (nm, t, v)
+
+    def module(self, name, nass=None, ext_refs=(), values=True):
         tagdef = self.r.choice(["AUTOMATIC", "AUTOMATIC", "", "EXPLICIT", "IMPLICIT"])
         automatic = tagdef == "AUTOMATIC"
         used = set()
         assigns, refs = [], list(ext_refs)
-        for _ in range(nass or self.r.range(1, 2 + self.size)):
+        self.vals, self.modname, self.inttypes = ({} if values else None), name, []
+        n = nass or self.r.range(1, 2 + self.size)
+        if values:
+            for _ in range(self.r.range(0, 3)):
+                assigns.append(self.value_assign(used))
+        for _ in range(n):
             nm = self.tname(used)
             t = self.texpr(2, refs, automatic)
             if self.r.chance(1, 6):
                 t = self.tag_for(t, self.r.choice("AP"))
             assigns.append((nm, t))
             refs.append(nm)
+            if t[1][0] == "INTEGER" and t[0] is None and not t[1][1] and t[2] is not None and not constr_has(t[2], "ctype"):
+                self.inttypes.append(nm)
+            if values and self.r.chance(1, 4):
+                assigns.append(self.value_assign(used))
+        self.vals, self.inttypes = None, None
         return {"name": name, "tagdef": tagdef, "extimpl": self.r.chance(1, 8), "assigns": assigns}
+
+
+def constr_has(c, kind):
+    if c is None:
+        return False
+    if c[0] == kind:
+        return True
+    if c[0] == "size":
+        return constr_has(c[1], kind)
+    if c[0] in ("uni", "int", "csv", "set"):
+        return any(constr_has(e, kind) for e in c[1])
+    return False
+
+
+def value_boundary_modules():
+    """directed cases of the VALUE sub-language, the same in every run: every value kind at its boundaries in
+    every position the grammar has a value (value assignment, DEFAULT, single-value constraint, range end
+    points, named numbers, ENUMERATED values, exception spec, contained subtype)"""
+    T = lambda ty, c=None, tag=None: (tag, ty, c)
+    INT, OCT, BIT, IA5, REAL, BOOL, NUL = ("INTEGER", []), ("OCTET STRING",), ("BIT STRING", []), ("IA5String",), ("REAL",), ("BOOLEAN",), ("NULL",)
+    hexall = "".join(format(i, "04b") for i in range(16))
+    mods = []
+    # 1. bit strings: all sixteen digits, every length 1..17, multiples of 8 (hstring) and 4 (bstring in print)
+    ass = [("vall", T(OCT), ("bits", hexall)), ("vaf", T(OCT), ("bits", "".join(format(i, "04b") for i in (10, 11, 12, 13, 14, 15, 15, 10)))),
+           ("vzero", T(OCT), ("bits", "0" * 8)), ("vff", T(OCT), ("bits", "1" * 8))]
+    for n in range(1, 18):
+        ass.append(("vb%d" % n, T(BIT), ("bits", ("1011001110001111" * 2)[:n])))
+    ass.append(("vnib3", T(BIT), ("bits", "101011001110")))          # 'ACE'H in source, a bstring in print
+    ass.append(("QaFrame", T(("SEQUENCE", [
+        ("c", "magic", T(OCT, ("set", [("size", ("set", [("val", 4)]))])), ("DEF", ("bits", format(0xCAFEBABE, "032b")))),
+        ("c", "flags", T(BIT), ("DEF", ("bits", "10100000"))),
+        ("c", "odd", T(BIT), ("DEF", ("bits", "101"))),
+        ("ext", 7),
+        ("c", "pad", T(OCT), ("DEF", ("bits", "0" * 16)))]))))
+    ass.append(("QaMarker", T(OCT, ("set", [("uni", [("val", ("bits", format(0xFF00, "016b"))), ("val", ("bits", format(0x00FF, "016b"))),
+                                                      ("val", ("ref", "vaf"))])]))))
+    ass.append(("QaBits", T(BIT, ("set", [("uni", [("val", ("bits", "1")), ("val", ("bits", "11011110101011011011111011101111"))])]))))
+    mods.append({"name": "ValB1", "tagdef": "AUTOMATIC", "extimpl": False, "assigns": ass})
+    # 2. character strings: empty, quotes, doubled quotes, comment and bracket look-alikes
+    strs = ["", "a", "\"", "\"\"", "say \"hi\"", "--", "a -- b", "/* c */", "{ ( [ | ^", "it's", "x\"", "\"x", "::=", "END"]
+    ass = [("vs%d" % i, T(IA5), ("str", t)) for i, t in enumerate(strs)]
+    ass.append(("QaWords", T(IA5, ("set", [("uni", [("val", ("str", t)) for t in strs[:6]])]))))
+    ass.append(("QaRec", T(("SET", [("c", "s%d" % i, T(IA5, None, ("C", i, "")), ("DEF", ("str", t))) for i, t in enumerate(strs[:8])] +
+                            [("c", "byref", T(IA5, None, ("C", 20, "")), ("DEF", ("ref", "vs4")))]))))
+    mods.append({"name": "ValB2", "tagdef": "", "extimpl": False, "assigns": ass})
+    # 3. numbers, NULL, BOOLEAN, reals, references in every position
+    big = 9223372036854775807
+    ass = [("vmin", T(INT), -big), ("vmax", T(INT), big), ("vzero", T(INT), 0), ("vneg", T(INT), -1), ("vten", T(INT), 10),
+           ("vchain", T(INT), ("ref", "vten")), ("vqual", T(INT), ("ref2", "ValB3", "vchain")),
+           ("vt", T(BOOL), ("bool", True)), ("vf", T(BOOL), ("bool", False)), ("vn", T(NUL), ("null",)),
+           ("vr0", T(REAL), ("real", False, "0", "000000")), ("vrn0", T(REAL), ("real", True, "0", "000000")),
+           ("vr1", T(REAL), ("real", False, "3", "140000")), ("vr2", T(REAL), ("real", True, "123456789", "123456")),
+           ("vr3", T(REAL), ("real", False, "0", "000001")), ("vr4", T(REAL), ("real", False, "999999999", "999999")),
+           ("QaRange", T(INT, ("set", [("range", ("ref", "vneg"), ("ref", "vten"))]))),
+           ("QaRangeQ", T(INT, ("set", [("range", -5, ("ref2", "ValB3", "vten"))]))),
+           ("QaEnds", T(INT, ("set", [("uni", [("range", "MIN", -big), ("val", ("ref", "vzero")), ("range", big, "MAX")])]))),
+           ("QaSized", T(OCT, ("set", [("size", ("set", [("range", 0, ("ref", "vten"))]))]))),
+           ("QaIncl", T(INT, ("set", [("ctype", None, "QaRange")]))),
+           ("QaInclQ", T(INT, ("set", [("uni", [("ctype", "ValB3", "QaRange"), ("range", 100, 200)])]))),
+           ("QaReal", T(REAL, ("set", [("uni", [("range", ("real", True, "1", "500000"), ("real", False, "2", "500000")),
+                                                 ("val", ("real", False, "1000", "000000"))])]))),
+           ("QaNamed", T(("INTEGER", [("lo", -3), ("hi", ("ref", "vten")), ("far", ("ref2", "ValB3", "vmax"))]))),
+           ("QaEnum", T(("ENUMERATED", [("i", "red", 0), ("i", "green", 10), ("ext",), ("i", "blue", 100)]))),
+           ("QaRec", T(("SEQUENCE", [
+               ("c", "a", T(INT), ("DEF", -big)), ("c", "b", T(INT), ("DEF", ("ref", "vchain"))),
+               ("c", "c", T(BOOL), ("DEF", ("bool", True))), ("c", "d", T(BOOL), ("DEF", ("bool", False))),
+               ("c", "e", T(NUL), ("DEF", ("null",))), ("c", "f", T(REAL), ("DEF", ("real", True, "0", "500000"))),
+               ("c", "g", T(("ENUMERATED", [("i", "on", None), ("i", "off", None)])), ("DEF", ("ref", "off"))),
+               ("c", "h", T(("INTEGER", [("one", 1), ("two", 2)])), ("DEF", ("ref", "two"))),
+               ("ext", ("ref", "vten")),
+               ("c", "i", T(INT), ("DEF", ("ref2", "ValB3", "vqual")))]))),
+           ("QaExc", T(("CHOICE", [("c", "x", T(INT), None), ("ext", -5), ("c", "y", T(BOOL), None)]))),
+           ("vtyped", T(("REF", "QaRange")), 3)]
+    mods.append({"name": "ValB3", "tagdef": "AUTOMATIC", "extimpl": False, "assigns": ass})
+    # 4. value references the printer handles but asn1c's semantic pass does not (print/parse level only):
+    #    an ENUMERATED value given by reference (the fixer dies with SIGSEGV), DEFAULT of an OCTET/BIT STRING by
+    #    reference ("Possibly incompatible type", exit 65)
+    ass = [("vten", T(INT), 10), ("vaf", T(OCT), ("bits", "10101111")), ("vbb", T(BIT), ("bits", "101")), ("vf", T(BOOL), ("bool", False)),
+           ("vr", T(REAL), ("real", False, "1", "500000")),
+           ("QaDefB", T(("SET", [("c", "d", T(BOOL), ("DEF", ("ref", "vf"))), ("c", "r", T(REAL), ("DEF", ("ref", "vr")))]))),
+           ("QaEnumR", T(("ENUMERATED", [("i", "red", 0), ("i", "green", ("ref", "vten")), ("ext",), ("i", "blue", ("ref2", "ValB4", "vten"))]))),
+           ("QaDefR", T(("SEQUENCE", [("c", "byref", T(OCT), ("DEF", ("ref", "vaf"))), ("c", "qref", T(BIT), ("DEF", ("ref2", "ValB4", "vbb")))])))]
+    mods.append({"name": "ValB4", "tagdef": "", "extimpl": False, "assigns": ass})
+    return mods
 
 
 # ---------------------------------------------------------------------------
 # rendering an AST to tokens (what a user could have written)
 
-def tok_value(z):
-    return str(z)
+def as_value(v):
+    return ("int", v) if isinstance(v, int) else v
+
+
+def toks_value(v, alt=lambda a, b: a):
+    """the lexemes of a value as a user could have written them (alt picks among spellings)"""
+    v = as_value(v)
+    k = v[0]
+    if k == "int":
+        return [str(v[1])]
+    if k == "null":
+        return ["NULL"]
+    if k == "bool":
+        return ["TRUE" if v[1] else "FALSE"]
+    if k == "bits":
+        b = v[1]
+        if len(b) % 4 == 0 and alt(True, False):
+            body, sfx = "".join("%X" % int(b[i:i + 4], 2) for i in range(0, len(b), 4)), "H"
+        else:
+            body, sfx = b, "B"
+        if len(body) > 3 and alt(False, True):       # blanks and newlines are permitted inside
+            i = len(body) // 2
+            body = body[:i] + alt(" ", "\n  ") + body[i:]
+        return ["'" + body + "'" + sfx]
+    if k == "str":
+        return ['"' + v[1].replace('"', '""') + '"']
+    if k == "real":
+        fp = v[3].rstrip("0") or "0"
+        return [("-" if v[1] else alt("", "+")) + v[2] + "." + fp]
+    if k == "ref":
+        return [v[1]]
+    if k == "ref2":
+        return [v[1] + "." + v[2]]
+    raise ValueError(k)
+
+
+def toks_endpoint(e, alt):
+    return [e] if e in ("MIN", "MAX") else toks_value(e, alt)
 
 
 def toks_constr(c, alt):
     k = c[0]
     if k == "val":
-        return [str(c[1])]
+        return toks_value(c[1], alt)
+    if k == "ctype":
+        return ([] if alt(True, False) else ["INCLUDES"]) + [(c[1] + "." if c[1] else "") + c[2]]
     if k == "range":
-        return [str(c[1]), "..", str(c[2])]
+        return toks_endpoint(c[1], alt) + [".."] + toks_endpoint(c[2], alt)
     if k == "ext":
         return ["..."]
     if k == "size":
@@ -302,7 +590,7 @@ def toks_texpr(t, alt):
     tag, ty, c = t
     out = toks_tag(tag) if tag else []
     k = ty[0]
-    if k in ("BOOLEAN", "NULL", "IA5String", "UTF8String"):
+    if k in ("BOOLEAN", "NULL", "IA5String", "UTF8String", "REAL"):
         out.append(k)
     elif k == "OCTET STRING":
         out += ["OCTET", "STRING"]
@@ -313,7 +601,7 @@ def toks_texpr(t, alt):
             for i, (n, v) in enumerate(ty[1]):
                 if i:
                     out.append(",")
-                out += [n, "(", str(v), ")"]
+                out += [n, "("] + toks_value(v, alt) + [")"]
             out.append("}")
     elif k == "ENUMERATED":
         out += [k, "{"]
@@ -325,7 +613,7 @@ def toks_texpr(t, alt):
             else:
                 out.append(it[1])
                 if it[2] is not None:
-                    out += ["(", str(it[2]), ")"]
+                    out += ["("] + toks_value(it[2], alt) + [")"]
         out.append("}")
     elif k in ("SEQUENCE", "SET", "CHOICE"):
         out += [k, "{"]
@@ -334,6 +622,8 @@ def toks_texpr(t, alt):
                 out.append(",")
             if m[0] == "ext":
                 out.append("...")
+                if len(m) > 1:
+                    out += ["!"] + toks_value(m[1], alt)
             else:
                 out.append(m[1])
                 out += toks_texpr(m[2], alt)
@@ -341,8 +631,7 @@ def toks_texpr(t, alt):
                     if m[3][0] == "OPT":
                         out.append("OPTIONAL")
                     else:
-                        d = m[3][1]
-                        out += ["DEFAULT", (str(d[1]) if d[0] == "int" else ("TRUE" if d[1] else "FALSE"))]
+                        out += ["DEFAULT"] + toks_value(m[3][1], alt)
         out.append("}")
     elif k in ("SEQUENCE OF", "SET OF"):
         out.append(k.split()[0])
@@ -375,8 +664,11 @@ def toks_module(m, alt=lambda a, b: a, imports=None):
                 out.append(n)
             out += ["FROM", frm]
         out.append(";")
-    for nm, t in m["assigns"]:
-        out += [nm, "::="] + toks_texpr(t, alt)
+    for a in m["assigns"]:
+        if len(a) == 2:
+            out += [a[0], "::="] + toks_texpr(a[1], alt)
+        else:
+            out += [a[0]] + toks_texpr(a[1], alt) + ["::="] + toks_value(a[2], alt)
     out.append("END")
     return out
 
@@ -400,8 +692,10 @@ def render(m, rng, imports=None):
             tight = False
         if t[0].isalnum() and nxt[0].isalnum():
             tight = False
-        if t[0] == "-" or nxt[0] == "-":      # negative number next to punctuation: keep a blank
+        if t[0] in "-+" or nxt[0] in "-+":      # signed number next to punctuation: keep a blank
             tight = False
+        if t == "!" or nxt == "!":
+            tight = True if rng.chance(1, 2) else tight
         if tight and (style == 0 or rng.chance(1, 2)):
             continue
         if style == 0:
@@ -428,12 +722,61 @@ def render(m, rng, imports=None):
 # ---------------------------------------------------------------------------
 # serialisation to the model driver's protocol (prefix form, blank separated)
 
+def ser_value(v, out):
+    v = as_value(v)
+    k = v[0]
+    if k == "int":
+        out += ["vi", str(v[1])]
+    elif k == "null":
+        out.append("vn")
+    elif k == "bool":
+        out.append("vt" if v[1] else "vf")
+    elif k == "bits":
+        out += ["vb", v[1]]
+    elif k == "str":
+        out += ["vs", v[1].encode("latin1").hex() or "-"]
+    elif k == "real":
+        out += ["vr", "1" if v[1] else "0", v[2], v[3]]
+    elif k == "ref":
+        out += ["v1", v[1]]
+    elif k == "ref2":
+        out += ["v2", v[1], v[2]]
+    else:
+        raise ValueError(k)
+
+
+def ser_nval(v, out):
+    v = as_value(v)
+    if v[0] == "int":
+        out += ["ni", str(v[1])]
+    elif v[0] == "ref":
+        out += ["n1", v[1]]
+    elif v[0] == "ref2":
+        out += ["n2", v[1], v[2]]
+    else:
+        raise ValueError(v[0])
+
+
+def ser_endpoint(e, out):
+    if e == "MIN":
+        out.append("m")
+    elif e == "MAX":
+        out.append("M")
+    else:
+        ser_value(e, out)
+
+
 def ser_constr(c, out):
     k = c[0]
     if k == "val":
-        out += ["v", str(c[1])]
+        out.append("v")
+        ser_value(c[1], out)
+    elif k == "ctype":
+        out += (["Y", c[1], c[2]] if c[1] else ["y", c[2]])
     elif k == "range":
-        out += ["r", "m" if c[1] == "MIN" else str(c[1]), "M" if c[2] == "MAX" else str(c[2])]
+        out.append("r")
+        ser_endpoint(c[1], out)
+        ser_endpoint(c[2], out)
     elif k == "ext":
         out.append("e")
     elif k == "size":
@@ -460,12 +803,13 @@ def ser_texpr(t, out):
     else:
         out += ["G", tag[0], str(tag[1]), {"": "D", "IMPLICIT": "I", "EXPLICIT": "E"}[tag[2]]]
     k = ty[0]
-    if k in ("BOOLEAN", "NULL", "OCTET STRING", "IA5String", "UTF8String"):
-        out.append({"BOOLEAN": "Tb", "NULL": "Tn", "OCTET STRING": "To", "IA5String": "Ta", "UTF8String": "Tu"}[k])
+    if k in ("BOOLEAN", "NULL", "OCTET STRING", "IA5String", "UTF8String", "REAL"):
+        out.append({"BOOLEAN": "Tb", "NULL": "Tn", "OCTET STRING": "To", "IA5String": "Ta", "UTF8String": "Tu", "REAL": "TR"}[k])
     elif k in ("INTEGER", "BIT STRING"):
         out += ["Ti" if k == "INTEGER" else "Tbs", str(len(ty[1]))]
         for n, v in ty[1]:
-            out += [n, str(v)]
+            out.append(n)
+            ser_nval(v, out)
     elif k == "ENUMERATED":
         out += ["Te", str(len(ty[1]))]
         for it in ty[1]:
@@ -474,12 +818,17 @@ def ser_texpr(t, out):
             elif it[2] is None:
                 out += ["J", it[1]]
             else:
-                out += ["I", it[1], str(it[2])]
+                out += ["I", it[1]]
+                ser_nval(it[2], out)
     elif k in ("SEQUENCE", "SET", "CHOICE"):
         out += [{"SEQUENCE": "Ts", "SET": "Tt", "CHOICE": "Tc"}[k], str(len(ty[1]))]
         for m in ty[1]:
             if m[0] == "ext":
-                out.append("E")
+                if len(m) > 1:
+                    out.append("Ex")
+                    ser_nval(m[1], out)
+                else:
+                    out.append("E")
             else:
                 out += ["C", m[1]]
                 ser_texpr(m[2], out)
@@ -487,10 +836,9 @@ def ser_texpr(t, out):
                     out.append("-")
                 elif m[3][0] == "OPT":
                     out.append("O")
-                elif m[3][1][0] == "int":
-                    out += ["Di", str(m[3][1][1])]
                 else:
-                    out += ["Db", "1" if m[3][1][1] else "0"]
+                    out.append("D")
+                    ser_value(m[3][1], out)
     elif k in ("SEQUENCE OF", "SET OF"):
         out.append("Tso" if k == "SEQUENCE OF" else "Tto")
         ser_copt(ty[1], out)
@@ -503,9 +851,11 @@ def ser_texpr(t, out):
 def ser_module(m):
     out = ["M", m["name"], {"": "N", "EXPLICIT": "E", "IMPLICIT": "I", "AUTOMATIC": "A"}[m["tagdef"]],
            "1" if m["extimpl"] else "0", str(len(m["assigns"]))]
-    for nm, t in m["assigns"]:
-        out.append(nm)
-        ser_texpr(t, out)
+    for a in m["assigns"]:
+        out += ["T" if len(a) == 2 else "W", a[0]]
+        ser_texpr(a[1], out)
+        if len(a) == 3:
+            ser_value(a[2], out)
     return " ".join(out)
 
 
@@ -547,7 +897,7 @@ def texpr_constrs(t):
 
 
 def module_has_deep_paren(m):
-    return any(constr_has_deep_paren(c) for _, t in m["assigns"] for c in texpr_constrs(t))
+    return any(constr_has_deep_paren(c) for a in m["assigns"] for c in texpr_constrs(a[1]))
 
 
 def wrap_parens(m, rng):
@@ -555,8 +905,10 @@ def wrap_parens(m, rng):
     extra pairs of parentheses (source `(((x)))`), or None if m has no suitable constraint"""
     import copy
     m2 = copy.deepcopy(m)
-    for i, (nm, t) in enumerate(m2["assigns"]):
-        tag, ty, c = t
+    for i, a in enumerate(m2["assigns"]):
+        if len(a) != 2:
+            continue
+        nm, (tag, ty, c) = a
         if c is not None and c[0] == "set" and len(c[1]) == 1 and c[1][0][0] not in ("csv", "ext", "set"):
             m2["assigns"][i] = (nm, (tag, ty, ("set", [("set", [("set", [c[1][0]])])])))
             return m2
@@ -607,7 +959,7 @@ def yacc_norm_texpr(t):
 
 def yacc_norm(m):
     m2 = dict(m)
-    m2["assigns"] = [(n, yacc_norm_texpr(t)) for n, t in m["assigns"]]
+    m2["assigns"] = [((a[0], yacc_norm_texpr(a[1])) if len(a) == 2 else (a[0], yacc_norm_texpr(a[1]), a[2])) for a in m["assigns"]]
     return m2
 
 
@@ -753,7 +1105,26 @@ class Rich:
             o = "o%s%d" % (st["pfx"].lower(), st["n"])
             self.add(st, o, "%s OBJECT IDENTIFIER ::= { iso org(3) dod(6) %d %d }" % (o, self.r.below(40), self.r.below(9000)), "value")
             s = "s%s%d" % (st["pfx"].lower(), st["n"])
-            self.add(st, s, '%s IA5String ::= "%s"' % (s, self.r.choice(["abc", "x y", "Hello"])), "value")
+            self.add(st, s, '%s IA5String ::= "%s"' % (s, self.r.choice(["abc", "x y", "Hello", 'say ""hi""', ""])), "value")
+        # bit/octet strings in hexadecimal and binary notation (digits A-F, lengths not a multiple of 8 / 4), braced values
+        # (SEQUENCE / OID values are kept as raw text by the parser), REAL values, in value assignments, DEFAULTs and constraints
+        hx = lambda n: "".join(self.r.choice("0123456789ABCDEF") for _ in range(n))
+        h = "h%s%d" % (st["pfx"].lower(), st["n"])
+        self.add(st, h, "%s OCTET STRING ::= '%s'H" % (h, hx(2 * self.r.range(1, 6))), "value")
+        bv = "k%s%d" % (st["pfx"].lower(), st["n"])
+        self.add(st, bv, "%s BIT STRING ::= '%s'%s" % ((bv,) + self.r.choice([(hx(self.r.choice([1, 3, 5])), "H"),
+                 ("".join(self.r.choice("01") for _ in range(self.r.range(1, 19))), "B"), (hx(4), "H")])), "value")
+        t3 = self.fresh(st, "HexDef")
+        self.add(st, t3, "%s ::= SEQUENCE { magic [0] OCTET STRING (SIZE(4)) DEFAULT '%s'H, flags [1] BIT STRING DEFAULT '%s'H, "
+                         "odd [2] BIT STRING DEFAULT '%s'B, r [3] REAL DEFAULT %s, oid [4] OBJECT IDENTIFIER DEFAULT { iso 3 %d }, "
+                         "sub [5] SEQUENCE { a INTEGER, b BOOLEAN } DEFAULT { a %d, b TRUE }, body [6] OCTET STRING (SIZE(0..32)) }"
+                 % (t3, hx(8), hx(2), "".join(self.r.choice("01") for _ in range(self.r.range(1, 7))),
+                    self.r.choice(["3.14", "-0.5", "100.0", "0.25"]), self.r.below(99), self.r.range(-9, 9)))
+        t4 = self.fresh(st, "HexSet")
+        self.add(st, t4, "%s ::= OCTET STRING ('%s'H | '%s'H%s)" % (t4, hx(4), hx(4), self.r.choice(["", " | '%s'H" % hx(2), ", ..."])))
+        if self.r.chance(1, 2):
+            sv = "q%s%d" % (st["pfx"].lower(), st["n"])
+            self.add(st, sv, "%s %s ::= { body '%s'H }" % (sv, t3, hx(2 * self.r.range(1, 4))), "value")
 
     def tagtxt(self, used):
         for _ in range(50):
@@ -1080,3 +1451,216 @@ def clash_set(rng):
         # the template lives in module 0; every module instantiates it
         m["template_module_automatic"] = with_param and "AUTOMATIC TAGS" in mods[0]["text"].split("BEGIN")[0]
     return mods
+
+
+# ===========================================================================
+# Cross-module constraint resolution: contained-subtype (`INCLUDES`) and value-reference chains over 2-3
+# modules in separate files.  Every set comes with the description coq/Fix/Pullup.v takes (types numbered so
+# that every reference goes to a smaller number, own constraint = sequence of leaves, parent reference), so
+# that the combined constraints asn1c computes for every file order can be compared with the model's.
+
+def _xm_text(name, imports, lines):
+    imp = ""
+    if imports:
+        imp = "IMPORTS " + " ".join("%s FROM %s" % (", ".join(ns), m) for m, ns in imports.items() if ns) + ";\n"
+        if imp == "IMPORTS ;\n":
+            imp = ""
+    return "%s DEFINITIONS AUTOMATIC TAGS ::= BEGIN\n%s%s\nEND\n" % (name, imp, "\n".join(lines))
+
+
+class XSet:
+    """builder of one cross-module set"""
+    def __init__(self, rng, nmods, tagno):
+        self.r = rng
+        self.names = ["X%s%d" % ("abc"[i], tagno) for i in range(nmods)]        # module 0 = top ... last = base
+        self.types = []      # {"name","mod","parent":idx|None,"own":[leaf],"text":rhs,"kind":"int"|"size"}   leaf = ("L",lo,hi)|("V",lo,validx)|("I",typeidx)
+        self.vals = []       # {"name","mod","z","text"}
+        self.extra = [[] for _ in range(nmods)]     # unmodelled decoration lines per module
+        self.uses = [set() for _ in range(nmods)]   # imported symbols per module: (symbol, from module index)
+        self.n = 0
+
+    def fresh(self, stem):
+        self.n += 1
+        return "%s%d" % (stem, self.n)
+
+    def use(self, mod, sym_mod, name):
+        if sym_mod != mod:
+            self.uses[mod].add((name, sym_mod))
+
+    def add_value(self, mod, z=None, ref=None):
+        nm = self.fresh("lim")
+        if ref is not None:
+            v = self.vals[ref]
+            self.use(mod, v["mod"], v["name"])
+            self.vals.append({"name": nm, "mod": mod, "z": v["z"], "text": "%s INTEGER ::= %s" % (nm, v["name"])})
+        else:
+            self.vals.append({"name": nm, "mod": mod, "z": z, "text": "%s INTEGER ::= %d" % (nm, z)})
+        return len(self.vals) - 1
+
+    def leaf_text(self, mod, leaf, incl_kw):
+        if leaf[0] == "L":
+            return "%d..%d" % (leaf[1], leaf[2])
+        if leaf[0] == "V":
+            v = self.vals[leaf[2]]
+            self.use(mod, v["mod"], v["name"])
+            return "%d..%s" % (leaf[1], v["name"])
+        t = self.types[leaf[1]]
+        self.use(mod, t["mod"], t["name"])
+        return ("INCLUDES " if incl_kw else "") + t["name"]
+
+    def add_type(self, mod, own=(), parent=None, size=False, stem="T"):
+        nm = self.fresh(stem)
+        base = "OCTET STRING" if size else "INTEGER"
+        if parent is not None:
+            p = self.types[parent]
+            self.use(mod, p["mod"], p["name"])
+            base = p["name"]
+        txt = ""
+        if own:
+            body = " | ".join(self.leaf_text(mod, l, self.r.chance(1, 2)) for l in own)
+            txt = " (SIZE(%s))" % body if size else " (%s)" % body
+        self.types.append({"name": nm, "mod": mod, "parent": parent, "own": list(own), "size": size,
+                           "text": "%s ::= %s%s" % (nm, base, txt)})
+        return len(self.types) - 1
+
+    # ---- the order-free meaning (python's own evaluation, independent of the Coq model)
+    def leaves(self, t):
+        ty = self.types[t]
+        cp = self.leaves(ty["parent"]) if ty["parent"] is not None else None
+        if cp is None and not ty["own"]:
+            return None
+        out = list(cp or [])
+        for l in ty["own"]:
+            if l[0] == "L":
+                out.append(("L", l[1], l[2]))
+            elif l[0] == "V":
+                out.append(("L", l[1], self.vals[l[2]]["z"]))
+            else:
+                sub = self.leaves(l[1])
+                out += sub if sub is not None else [("I", l[1])]
+        return out
+
+    def has_refs(self, t):
+        """the type's own constraint, or that of a type on its parent chain, holds a reference"""
+        ty = self.types[t]
+        if any(l[0] in ("V", "I") for l in ty["own"]):
+            return True
+        return ty["parent"] is not None and (self.types[ty["parent"]]["mod"] != ty["mod"] or self.has_refs(ty["parent"]))
+
+    def build(self, shuffle=True):
+        k = len(self.names)
+        mods = []
+        for i in range(k):
+            items = [("t", j) for j, t in enumerate(self.types) if t["mod"] == i] + [("v", j) for j, v in enumerate(self.vals) if v["mod"] == i]
+            if shuffle and self.r.chance(1, 2):
+                items = self.r.shuffle(items)        # definition order is free: forward references
+            lines = [(self.types[j]["text"] if kind == "t" else self.vals[j]["text"]) for kind, j in items] + self.extra[i]
+            imports = {}
+            for (sym, frm) in sorted(self.uses[i]):
+                imports.setdefault(self.names[frm], []).append(sym)
+            mods.append({"name": self.names[i], "text": _xm_text(self.names[i], imports, lines),
+                         "order": [j for kind, j in items if kind == "t"]})
+        return mods
+
+    def model_args(self, perm, mods, seeded=False):
+        """arguments of the model command c12_pull for the file order perm"""
+        a = ["1" if seeded else "0", str(len(self.types))]
+        for t in self.types:
+            a += [str(t["mod"]), "-" if t["parent"] is None else str(t["parent"]), str(len(t["own"]))]
+            for l in t["own"]:
+                a += ([l[0], str(l[1]), str(l[2])] if l[0] != "I" else ["I", str(l[1])])
+        a += [str(len(self.vals))] + [str(v["z"]) for v in self.vals]
+        a.append(str(len(perm)))
+        for i in perm:
+            a += [str(i), str(len(mods[i]["order"]))] + [str(j) for j in mods[i]["order"]]
+        return a
+
+
+XM_SHAPES = ["alias-incl", "alias-incl-valref", "alias-incl-valchain", "alias2-incl", "parent-chain", "direct-incl-literal",
+             "valref-across", "valchain-across", "incl-union", "size-valref", "incl-unconstrained", "two-modules"]
+
+
+def xmod_set(rng, tagno, shape=None):
+    """one set of 2-3 module files with contained-subtype / value-reference chains across them.  Returns
+    {"mods":[{"name","text","order"}], "xs": XSet, "shape", "witness": None}.  The shapes stay clear of finding
+    C12-includes-foreign-namespace (a contained subtype naming a type of ANOTHER module whose own
+    constraints hold references): they reach the foreign type through a local alias (`X ::= Y`), which is the path
+    constraint_type_resolve -> asn1constraint_pullup walks with arg->mod = the including module."""
+    shape = shape or rng.choice(XM_SHAPES)
+    k = 2 if shape == "two-modules" else 3
+    xs = XSet(rng, k, tagno)
+    top, mid, base = 0, (1 if k == 3 else 1), k - 1
+    lo = rng.range(-20, 5)
+    hi = lo + rng.range(10, 200)
+    w = xs.add_type(base, [("L", lo, hi)] if shape != "incl-unconstrained" else [], stem="W")
+    wv = xs.add_value(base, z=hi + rng.range(0, 50))
+    if rng.chance(1, 2):
+        xs.add_type(base, [("L", lo, hi), ("L", hi + 10, hi + 20)], stem="W")
+    if shape in ("alias-incl", "alias2-incl", "incl-union", "incl-unconstrained", "two-modules"):
+        y = xs.add_type(mid, [("I", w)] + ([("L", hi + 30, hi + 40)] if shape == "incl-union" else []), stem="Y")
+    elif shape == "alias-incl-valref":
+        y = xs.add_type(mid, [("V", lo, wv)], stem="Y")
+    elif shape == "alias-incl-valchain":
+        yv = xs.add_value(mid, ref=wv)
+        y = xs.add_type(mid, [("V", lo, yv)], stem="Y")
+    elif shape == "parent-chain":
+        y0 = xs.add_type(mid, parent=w, stem="Y")
+        y = xs.add_type(mid, [("L", lo + 1, hi - 1)], parent=y0, stem="Y")
+    elif shape == "direct-incl-literal":
+        y = xs.add_type(mid, [("L", lo, hi)], stem="Y")
+    elif shape in ("valref-across", "valchain-across"):
+        yv = xs.add_value(mid, ref=wv) if shape == "valchain-across" else wv
+        y = xs.add_type(mid, [("V", lo, yv)], stem="Y")
+    elif shape == "size-valref":
+        sv = xs.add_value(base, z=rng.range(8, 64))
+        yv = xs.add_value(mid, ref=sv)
+        y = xs.add_type(mid, [("V", 0, yv)], size=True, stem="Y")
+    # the top module
+    if shape == "direct-incl-literal":
+        xs.add_type(top, [("I", y)] + ([("L", hi + 100, hi + 110)] if rng.chance(1, 2) else []), stem="V")
+    elif shape in ("valref-across", "valchain-across"):
+        tv = xs.add_value(top, ref=yv) if rng.chance(1, 2) else yv
+        xs.add_type(top, [("V", lo - 5, tv)], stem="V")
+        x = xs.add_type(top, parent=y, stem="X")
+    elif shape == "size-valref":
+        x = xs.add_type(top, parent=y, stem="X")
+        xs.add_type(top, [("V", 1, yv)], size=True, stem="V")
+    else:
+        x = xs.add_type(top, parent=y, stem="X")
+        if shape == "alias2-incl":
+            x = xs.add_type(top, parent=x, stem="X")
+        own = [("I", x)]
+        if rng.chance(1, 3):
+            own.append(("L", hi + 300, hi + 310))
+        if rng.chance(1, 4):
+            own.insert(0, ("L", lo - 40, lo - 30))
+        xs.add_type(top, own, stem="V")
+        if rng.chance(1, 2):
+            xs.add_type(top, [("I", x)], stem="V")         # the same contained subtype twice: the cached result is reused
+    # decoration: constructed types using the constrained ones (their files change when the constraints do)
+    if rng.chance(2, 3):
+        ms = ["f%d %s" % (i, t["name"]) for i, t in enumerate(xs.types) if t["mod"] == top][:4]
+        for i, t in enumerate(xs.types):
+            if t["mod"] == mid and rng.chance(1, 2):
+                xs.use(top, mid, t["name"])
+                ms.append("g%d %s OPTIONAL" % (i, t["name"]))
+        xs.extra[top].append("%s ::= SEQUENCE { %s }" % (xs.fresh("Rec"), ", ".join(ms)))
+    return {"mods": xs.build(), "xs": xs, "shape": shape, "witness": None}
+
+
+def xmod_witness(rng, tagno, kind):
+    """witnesses of finding C12-includes-foreign-namespace: module A names a type Y of module B in a contained
+    subtype constraint, and Y's own constraint holds a reference that is looked up in A's name space when A is
+    processed before B.  kind "fatal": the referenced name is unknown in A; kind "silent": A has another
+    definition of that name, which is silently taken."""
+    a, b, c = "Na%d" % tagno, "Nb%d" % tagno, "Nc%d" % tagno
+    if kind == "fatal":
+        texts = [_xm_text(a, {b: ["Yf"]}, ["Xf ::= INTEGER (INCLUDES Yf)"]),
+                 _xm_text(b, {c: ["Wf"]}, ["Yf ::= INTEGER (Wf)"]),
+                 _xm_text(c, {}, ["Wf ::= INTEGER (0..%d)" % rng.range(50, 150)])]
+    else:
+        texts = [_xm_text(a, {b: ["Ys"]}, ["Xs ::= INTEGER (INCLUDES Ys)", "lims INTEGER ::= %d" % rng.range(2, 9)]),
+                 _xm_text(b, {}, ["Ys ::= INTEGER (0..lims)", "lims INTEGER ::= %d" % rng.range(100, 200)])]
+    names = [a, b, c][:len(texts)]
+    return {"mods": [{"name": n, "text": t, "order": []} for n, t in zip(names, texts)], "xs": None, "shape": "witness-" + kind,
+            "witness": kind}
